@@ -1,4 +1,4 @@
-(* C14 -- axis 1: backward directional fill over rows and frames (guarded, see Refuted/C14.v), and the sided
+(* C14 -- axis 1: backward directional fill over rows and frames (guarded for the old decision cf = false, unguarded for the repaired one), and the sided
    (leading / trailing) fills across blocks. *)
 Require Import SF.Prelude SF.Value SF.Missing Proofs.MissingSpec Proofs.MissingKernel Proofs.MissingAxis1.
 
@@ -242,3 +242,12 @@ Example guards_nontrivial :
   M_dir_axis1 false false 2 2 blocks = [[Some 2; Some 2; Some 2; Some 4; Some 4]; [Some 1; Some 3; None; None; None]] /\
   M_dir_axis1 false true 1 2 blocks = [[None; None; Some 2; Some 2; Some 4]; [Some 1; Some 3; Some 3; None; None]].
 Proof. vm_compute. repeat split. Qed.
+
+(* with the old decision (count from the LAST yielded slice) the guard is necessary: rows [NaN | NaN NaN 1 NaN 2] (over-fill)
+   and [NaN | NaN 1 NaN NaN 2] (under-fill), limit 2 -- the repaired decision meets the specification on both *)
+Example old_decision_needs_guard :
+  let r1 := [RB1 true None; RB2 true [None; None; Some 1; None; Some 2]] in
+  let r2 := [RB1 true None; RB2 true [None; Some 1; None; None; Some 2]] in
+  M_dir_row false false 2 r1 <> S_bfill 2 (row_cells r1) /\ M_dir_row false false 2 r2 <> S_bfill 2 (row_cells r2) /\
+  M_dir_row true false 2 r1 = S_bfill 2 (row_cells r1) /\ M_dir_row true false 2 r2 = S_bfill 2 (row_cells r2).
+Proof. vm_compute. repeat split; discriminate. Qed.
